@@ -431,3 +431,17 @@ func initTargets() {
 	}
 	initGenerated()
 }
+
+// registerGenerated plugs a freshly generated parser (see /verif/driver/genbatch.go) into
+// the target list. Its corpus is validated with the parser itself, like the shipped ones.
+func registerGenerated(name string, parse func(ctx context.Context, in string, ev func(t, flags, off, end int), eh func(line, off, end int) bool) error,
+	ends func(string) []int, c *corpus, hasEH, lookaheads bool) {
+	p := func(ctx context.Context, in string, rec *recorder) (string, error) {
+		return "", parse(ctx, in, rec.Event, rec.ErrH)
+	}
+	droppedItems[name] = c.validate(ends, okWith(p))
+	if len(c.items) == 0 {
+		return
+	}
+	register(&Target{Name: name, Parse: p, TokenEnds: ends, Gen: c.gen, HasEH: hasEH, Events: true, Lookaheads: lookaheads, Weight: 9})
+}
